@@ -241,4 +241,4 @@ def _violated_flags(chk, name):
     except Exception:
         return ""
     m = re.findall(r"/\\ viol = (\{[^}]*\})", out)
-    return m[-1] if m else ""
+    return " ".join(m[-1].split()) if m else ""
